@@ -316,6 +316,38 @@ func c12TornClass(path string) (cls string) {
 	return c12LoadClass(err)
 }
 
+// c12Client: what a client started on a store holds, as far as it can be observed without touching the store:
+// the encrypted flag, key and salt (getters), key id and address (private fields, read by reflection).
+//   C<enc>:<key>/<key id>/<salt>/<address>     Cerr:<class> when NewMTProto refuses
+func c12ShowClient(m *mtproto.MTProto, err error) string {
+	if err != nil {
+		return "Cerr:" + c12LoadClass(err)
+	}
+	v := reflect.ValueOf(m).Elem()
+	enc := "?"
+	if f := v.FieldByName("encrypted"); f.IsValid() && f.Kind() == reflect.Bool {
+		enc = "0"
+		if f.Bool() {
+			enc = "1"
+		}
+	}
+	hash, addr := "?", "?"
+	if f := v.FieldByName("authKeyHash"); f.IsValid() && f.Kind() == reflect.Slice && f.Type().Elem().Kind() == reflect.Uint8 {
+		hash = showBytes(f.Bytes())
+	}
+	if f := v.FieldByName("addr"); f.IsValid() && f.Kind() == reflect.String {
+		addr = showBytes([]byte(f.String()))
+	}
+	return fmt.Sprintf("C%s:%s/%s/%d/%s", enc, showBytes(m.GetAuthKey()), hash, m.GetServerSalt(), addr)
+}
+
+// c12History runs a history on one path. Items:
+//   S:<loader>:<session>:<mtime>   Store by a long-lived loader (the file's modification time forced to <mtime>)
+//   L:<loader>                     Load by a long-lived loader            F   Load by a fresh loader
+//   X:<bytes>:<mtime>              another writer leaves this content     D   the file is deleted
+//   C:<loader>                     a client is started on the long-lived loader: NewMTProto(Config{SessionStorage: loader})
+//   H                              everything handed out so far is looked at again: the sessions the Loads returned
+//                                  and the clients started must still be what they were when they were handed out
 func c12History(shape string, items []string, forceTimes bool) string {
 	path, done := c12Place(shape)
 	defer done()
@@ -328,8 +360,23 @@ func c12History(shape string, items []string, forceTimes bool) string {
 			}
 		}
 	}
+	type heldT struct {
+		item int
+		s    *session.Session
+		m    *mtproto.MTProto
+		was  string
+	}
+	var held []heldT
+	load := func(i int, l session.SessionLoader) string {
+		s, err := l.Load()
+		out := c12ShowLoad(s, err)
+		if err == nil && s != nil {
+			held = append(held, heldT{item: i, s: s, was: out})
+		}
+		return out
+	}
 	var outs []string
-	for _, it := range items {
+	for i, it := range items {
 		p := strings.Split(it, ":")
 		switch {
 		case p[0] == "S" && len(p) == 4:
@@ -339,9 +386,34 @@ func c12History(shape string, items []string, forceTimes bool) string {
 			}
 			outs = append(outs, c12ShowStore(err))
 		case p[0] == "L" && len(p) == 2:
-			outs = append(outs, c12ShowLoad(loaders[atoi(p[1])].Load()))
+			outs = append(outs, load(i, loaders[atoi(p[1])]))
 		case p[0] == "F" && len(p) == 1:
-			outs = append(outs, c12ShowLoad(session.NewFromFile(path).Load()))
+			outs = append(outs, load(i, session.NewFromFile(path)))
+		case p[0] == "C" && len(p) == 2:
+			m, err := mtproto.NewMTProto(mtproto.Config{SessionStorage: loaders[atoi(p[1])], ServerHost: c12CfgHost})
+			out := c12ShowClient(m, err)
+			if err == nil {
+				held = append(held, heldT{item: i, m: m, was: out})
+			}
+			outs = append(outs, out)
+		case p[0] == "H" && len(p) == 1:
+			var changed []string
+			for _, h := range held {
+				now := ""
+				if h.s != nil {
+					now = c12ShowLoad(h.s, nil)
+				} else {
+					now = c12ShowClient(h.m, nil)
+				}
+				if now != h.was {
+					changed = append(changed, fmt.Sprintf("item%d:%s->%s", h.item, h.was, now))
+				}
+			}
+			if len(changed) == 0 {
+				outs = append(outs, "held=same")
+			} else {
+				outs = append(outs, "held=changed:"+strings.Join(changed, ";"))
+			}
 		case p[0] == "X" && len(p) == 3:
 			if err := os.WriteFile(path, parseBytes(p[1]), 0o600); err != nil {
 				return "bad-op"
@@ -526,6 +598,7 @@ func c12JudgeHistory(shape string, items, outs []string, forcedTimes bool) strin
 	type seenT struct {
 		mtime int
 		ok    bool
+		out   string // what it returned then
 	}
 	seen := map[int]seenT{} // loader -> modification time of the file at its last successful Load
 	cur := -1               // the file's (forced) modification time
@@ -553,7 +626,26 @@ func c12JudgeHistory(shape string, items, outs []string, forcedTimes bool) strin
 	for i, it := range items {
 		p := strings.Split(it, ":")
 		o := outs[i]
+		if p[0] == "C" {
+			// a client started on a long-lived loader must hold what a Load by that loader must return: the session
+			// (and then be in the already-encrypted state), nothing and the configured address, or no client at all
+			blank := "C0:-/-/0/" + showBytes([]byte(c12CfgHost))
+			switch {
+			case strings.HasPrefix(o, "C1:"):
+				o = "ok:" + o[3:]
+			case o == blank:
+				o = "err:notfound"
+			case strings.HasPrefix(o, "Cerr:"):
+				o = "err:" + o[5:]
+			default:
+				return fmt.Sprintf("item %d: a client started on loader %s is in a state that is neither resumed nor fresh: %s — history: %s", i, p[1], o, upTo(i))
+			}
+		}
 		switch p[0] {
+		case "H":
+			if o != "held=same" {
+				return fmt.Sprintf("item %d: what was handed out earlier (the session a Load returned / the key a started client holds) has been modified since: %s — history: %s", i, clip(o), upTo(i))
+			}
 		case "S":
 			if c12DirExists(shape) {
 				if o != "ok" {
@@ -566,10 +658,14 @@ func c12JudgeHistory(shape string, items, outs []string, forcedTimes bool) strin
 			} else if o == "ok" {
 				return fmt.Sprintf("item %d: Store reports success without a directory", i)
 			}
-		case "L", "F":
+		case "L", "F", "C":
 			ld := -1
-			if p[0] == "L" {
+			if p[0] != "F" {
 				ld = atoi(p[1])
+			}
+			shown := o
+			if p[0] == "C" {
+				shown = "[a client started on it holds " + outs[i] + "]"
 			}
 			if ld >= 0 && forcedTimes && c12DirExists(shape) {
 				if sn := seen[ld]; !(sn.ok && sn.mtime == cur) || st == missing {
@@ -588,27 +684,31 @@ func c12JudgeHistory(shape string, items, outs []string, forcedTimes bool) strin
 						if sn.ok {
 							had = fmt.Sprintf("had loaded successfully when the file's modification time was %d (now %d)", sn.mtime, cur)
 						}
-						return fmt.Sprintf("item %d: long-lived loader %d, which %s, returns %s; it must return %s — history: %s", i, ld, had, o, what, upTo(i))
+						return fmt.Sprintf("item %d: long-lived loader %d, which %s, returns %s; it must return %s — history: %s", i, ld, had, shown, what, upTo(i))
 					}
+				}
+				if sn := seen[ld]; sn.ok && sn.mtime == cur && st != missing && o != sn.out && !(st == stored && c12Same(o, last)) {
+					// the file is as it was when this loader read it: it may answer from what it read then, or read again
+					return fmt.Sprintf("item %d: long-lived loader %d returned %s when the file's modification time was %d; the file still has that time and now it returns %s — history: %s", i, ld, sn.out, sn.mtime, shown, upTo(i))
 				}
 				if strings.HasPrefix(o, "ok:") {
 					if sn := seen[ld]; !(sn.ok && sn.mtime == cur) {
-						seen[ld] = seenT{cur, true}
+						seen[ld] = seenT{cur, true, o}
 					}
 				}
 			}
 			switch st {
 			case stored:
 				if (ld == -1 || ld == by) && !c12Same(o, last) {
-					return fmt.Sprintf("item %d: load after store returns %s, last stored %s", i, o, last.show())
+					return fmt.Sprintf("item %d: load after store returns %s, last stored %s — history: %s", i, shown, last.show(), upTo(i))
 				}
 			case missing:
 				if ld == -1 && o != "err:notfound" {
-					return fmt.Sprintf("item %d: missing file reported as %s", i, o)
+					return fmt.Sprintf("item %d: missing file reported as %s", i, shown)
 				}
 			case torn:
 				if ld == -1 && !strings.HasPrefix(o, "err:") {
-					return fmt.Sprintf("item %d: torn file read as %s", i, o)
+					return fmt.Sprintf("item %d: torn file read as %s", i, shown)
 				}
 			}
 		case "X":
@@ -638,13 +738,103 @@ var c12Hosts = []string{
 	"{\"key\":\"x\"}", "a,b:c d", "\u212a\u017f",
 }
 
+// c12JsonHosts: host names made of text that means something to a JSON writer or reader — the host name is
+// the only free text in the file. Built from what encoding/json itself does, not from a list of codes:
+//   * the escaped form of every character the writer escapes (all of U+0000..U+007F, U+2028, U+2029, an
+//     ill-formed byte) taken as LITERAL text: a backslash followed by n, ", \, u00XX, u2028 … (the file must hold
+//     an escaped backslash followed by plain text, and reading it must give the six characters back, not the one);
+//     alone, inside other text, behind one / two more backslashes, in upper-case hex, several in a row;
+//   * the escaped form, and the twice escaped form, of every host name of c12Hosts;
+//   * quotes and backslashes at the ends; text that looks like the rest of the file;
+//   * very long names.
+func c12JsonHosts() []string {
+	esc := func(h string) string { // the writer's escaped form of h, as text
+		b, err := json.Marshal(h)
+		if err != nil || len(b) < 2 {
+			return h
+		}
+		return string(b[1 : len(b)-1])
+	}
+	seen := map[string]bool{}
+	var out []string
+	add := func(h string) {
+		if !seen[h] {
+			seen[h] = true
+			out = append(out, h)
+		}
+	}
+	var escapes []string // the distinct escape sequences the writer produces
+	for r := rune(0); r < 0x80; r++ {
+		if e := esc(string(r)); e != string(r) {
+			escapes = append(escapes, e)
+		}
+	}
+	for _, r := range []rune{0x2028, 0x2029} {
+		escapes = append(escapes, esc(string(r)))
+	}
+	escapes = append(escapes, esc("\xff"))
+	for _, e := range escapes {
+		add(e)
+		add("dc" + e + "x:443")
+		add("\\" + e)
+		add("\\\\" + e + "\\")
+		add(e + e)
+		if u := strings.ToUpper(e[1:]); u != e[1:] {
+			add(e[:1] + "u" + u[1:]) // \u00XX with upper-case hex digits
+		}
+	}
+	// escape-looking text the writer never produces itself
+	for _, e := range []string{"\\u0041", "\\u00e9", "\\ud83d\\ude00", "\\ud83d", "\\udc00", "\\uffff", "\\u", "\\u00", "\\u002", "\\x26", "\\/", "\\a", "\\0", "\\U00000026", "%26", "&amp;", "&#38;"} {
+		add(e)
+		add("a" + e + "b")
+	}
+	for _, h := range c12Hosts {
+		add(esc(h))
+		add(esc(esc(h)))
+	}
+	for _, h := range []string{"\"", "\"\"", "\\\"", "\"\\", "a\"", "\"a", "\\\\", "\\\\\\", "\",\"hostname\":\"x", "\"}", "h\"}\n{\"key\":\"AQID", "\\\",\"key\":\"\\", "\n", "\\n", "\r\n", "\t", "'", "&<>", "<&>\\u0026", "a&b<c>d"} {
+		add(h)
+	}
+	add(strings.Repeat("a", 4096))
+	add(strings.Repeat("h.example", 7300) + ":443") // longer than 65535 bytes
+	add(strings.Repeat("<&>\"\\\n\u2028", 700))
+	{
+		var b strings.Builder
+		for i := 0; i < 1200; i++ {
+			b.WriteString(escapes[i%len(escapes)])
+		}
+		add(b.String())
+	}
+	return out
+}
+
+// pieces of JSON-significant text for randomly composed host names
+var c12JsonPieces = []string{"\\", "\"", "u", "00", "0", "2", "6", "3", "c", "e", "C", "E", "20", "28", "29", "\\u", "\\u00", "\\n", "\\\"", "n", "&", "<", ">", "{", "}", ":", ",", "/", "\n", "\u2028", "a", "\x00", "\x1f", "\x7f", "é"}
+
 var c12Runes = []rune{'a', 'Z', '0', '.', ':', '"', '\\', '/', '<', '>', '&', '\'', ' ', '\t', '\n', '\r', '\b', '\f', 0, 1, 0x1f, 0x7f, 0x80, 0xe9,
 	0x7ff, 0x800, 0x2027, 0x2028, 0x2029, 0x202a, 0xd7ff, 0xe000, 0xfffd, 0xffff, 0x10000, 0x1f600, 0x10ffff, 'п', '例'}
 
+var c12JsonHostList []string
+
 func c12GenHost(g *G) []byte {
-	switch g.R.Intn(10) {
+	if c12JsonHostList == nil {
+		c12JsonHostList = c12JsonHosts()
+	}
+	switch g.R.Intn(12) {
 	case 0, 1, 2:
 		return []byte(c12Hosts[g.R.Intn(len(c12Hosts))])
+	case 10: // text that means something to a JSON writer or reader (short ones: these go into histories as well)
+		for {
+			if h := c12JsonHostList[g.R.Intn(len(c12JsonHostList))]; len(h) < 200 {
+				return []byte(h)
+			}
+		}
+	case 11: // … and random compositions of its pieces
+		var b []byte
+		for n := 1 + g.R.Intn(8); n > 0; n-- {
+			b = append(b, c12JsonPieces[g.R.Intn(len(c12JsonPieces))]...)
+		}
+		return b
 	case 3: // raw bytes, mostly invalid UTF-8
 		return g.R.Bytes(g.R.Intn(12))
 	case 4: // valid text with a few raw bytes spliced in
@@ -847,6 +1037,22 @@ func c12Gen(g *G) {
 			g.Emit("c12.rt "+sh+" "+c12GenSess(g).token(), "rt-"+sh)
 		}
 	}
+	// host names made of JSON-significant text: stored, read by the same and by a fresh loader, byte for byte
+	jsonHosts := c12JsonHosts()
+	for i, h := range jsonHosts {
+		shapes := []string{"abs"}
+		if g.Thorough() {
+			shapes = c12Shapes[:4]
+		} else if i%16 == 0 {
+			shapes = append(shapes, c12Shapes[1+g.R.Intn(3)])
+		}
+		for _, sh := range shapes {
+			g.Emit("c12.rt "+sh+" "+c12Sess{key: []byte{1, 2, 3}, hash: []byte{4}, salt: -2, host: []byte(h)}.token(), "rt-"+sh, "rt-json-host")
+		}
+		if len(h) < 4096 && (g.Thorough() || g.R.Intn(6) == 0) {
+			g.Emit("c12.resume 1 "+c12Sess{key: g.R.Bytes(256), hash: g.R.Bytes(8), salt: c12GenSalt(g), host: []byte(h)}.token(), "resume-present", "resume-json-host")
+		}
+	}
 	// histories with forced modification times (equal ones included) and up to three loaders
 	for i := g.N(500, 20000); i > 0; i-- {
 		sh := c12Shapes[g.R.Intn(4)]
@@ -861,7 +1067,13 @@ func c12Gen(g *G) {
 		var lastS *c12Sess
 		for n := 2 + g.R.Intn(9); n > 0; n-- {
 			m := strconv.Itoa(g.R.Pick(5, 5, 5, 5, 6, 7, 4))
-			switch r := g.R.Intn(20); {
+			switch r := g.R.Intn(24); {
+			case r == 20 || r == 21:
+				items = append(items, fmt.Sprintf("C:%d", g.R.Intn(nl)))
+			case r == 22:
+				items = append(items, "C:0")
+			case r == 23:
+				items = append(items, "H")
 			case r < 7:
 				s := c12SmallSess(g)
 				lastS = &s
@@ -885,7 +1097,51 @@ func c12Gen(g *G) {
 		if nl > 1 {
 			tag = "history-multi-loader"
 		}
+		items = append(items, "H")
 		g.Emit("c12.seq "+sh+" "+strings.Join(items, " "), tag)
+	}
+	// clients started one after another on ONE long-lived loader (an application that recreates its client keeps
+	// its session storage): each must resume with the stored session, and starting a client must leave alone what
+	// the loader hands out — to the next client, to a later Load, and what it handed out before
+	for i := g.N(120, 4000); i > 0; i-- {
+		sh := c12Shapes[g.R.Intn(4)]
+		s1 := c12SmallSess(g)
+		if g.R.Intn(3) == 0 {
+			s1 = c12GenSess(g)
+		}
+		if len(s1.key) == 0 || g.R.Intn(2) == 0 {
+			s1.key = g.R.Bytes(256) // a real auth key
+			s1.hash = g.R.Bytes(8)
+		}
+		writer := g.R.Pick(0, 0, 1)
+		m := 5
+		items := []string{fmt.Sprintf("S:%d:%s:%d", writer, s1.token(), m)}
+		if g.R.Bool() {
+			items = append(items, "L:0")
+		}
+		for n := 2 + g.R.Intn(3); n > 0; n-- {
+			items = append(items, "C:0")
+			switch g.R.Intn(6) {
+			case 0:
+				items = append(items, "H")
+			case 1:
+				items = append(items, "L:0")
+			case 2:
+				items = append(items, "F")
+			case 3: // the session is renewed in between (by this loader or by another one)
+				m += g.R.Intn(2)
+				s1 = c12SmallSess(g)
+				s1.key = g.R.Bytes(256)
+				items = append(items, fmt.Sprintf("S:%d:%s:%d", g.R.Pick(0, 1), s1.token(), m))
+			case 4:
+				items = append(items, "C:1")
+			}
+		}
+		items = append(items, "L:0", "F", "H")
+		if g.R.Intn(5) == 0 {
+			items = append(items, "D", "C:0", "L:0", "H")
+		}
+		g.Emit("c12.seq "+sh+" "+strings.Join(items, " "), "history-clients-on-one-loader")
 	}
 	// a long-lived loader that has loaded successfully, and another writer (a second loader / another process)
 	// that is cut short afterwards at EVERY byte of its file, each time at a later modification time: the
@@ -930,10 +1186,14 @@ func c12Gen(g *G) {
 		var items []string
 		for n := 2 + g.R.Intn(4); n > 0; n-- {
 			items = append(items, fmt.Sprintf("S:0:%s:0", c12SmallSess(g).token()), "L:0")
-			if g.R.Intn(3) == 0 {
+			switch g.R.Intn(6) {
+			case 0, 1:
 				items = append(items, "F")
+			case 2:
+				items = append(items, "C:0", "L:0", "C:0")
 			}
 		}
+		items = append(items, "H")
 		g.Emit("c12.nat "+sh+" "+strings.Join(items, " "), "history-real-clock")
 	}
 	// every strict prefix of a written file
